@@ -99,6 +99,8 @@ class MultiMachine(Machine):
                     ops.append(["add_shared", {"fits": J if rng.random() < 0.7 or len(J) != k else "all", "axis": "y", "err": fitlib.gen_errval(rng, n, False),
                                                "corr": rng.choice([0.0, 0.5, 1.0]), "name": "sh%d" % nsh}])
                     nsh += 1
+            elif r < 0.63 and nsh:
+                ops.append(["toggle_shared", {"name": "sh%d" % rng.randrange(nsh), "enable": rng.random() < 0.4}])
             elif r < 0.68:
                 sp = members[i]
                 if sp["type"] in ("xy", "indexed"):
@@ -357,6 +359,26 @@ class MultiMachine(Machine):
                     shared.append((src, J))
                     after = "add_shared"
                     res.probe("shared_source_added")
+                elif k == "toggle_shared":
+                    hit = [(src, J) for src, J in shared if src.name == a["name"]]
+                    if not hit:
+                        continue
+                    src, J = hit[0]
+                    if a["enable"]:
+                        if src.enabled:
+                            continue
+                        for j in J:
+                            sims[j].fit.enable_error(a["name"])  # (MultiFit offers disable_error only; enabling goes through the members)
+                    else:
+                        if not src.enabled:
+                            continue
+                        multi.disable_error(a["name"])
+                    src.enabled = bool(a["enable"])
+                    for j in J:
+                        for s2, _ in sims[j].ref.sources:
+                            if s2.name == a["name"]:
+                                s2.enabled = bool(a["enable"])
+                    after = "enable_shared@member" if a["enable"] else "disable_shared@multi"
                 elif k == "constraint":
                     if a["at"] == "multi":
                         if a["par"] not in names:
